@@ -528,7 +528,60 @@ func c12PacketBurst(c *vk.Ctx) bool {
 		}
 	}
 	c.Count("burst_datagrams_each_returned_by_exactly_one_read", int64(len(delivered)))
-	return c12Released(c, "packet", addr)
+	if !c12Released(c, "packet", addr) {
+		return false
+	}
+	// the largest datagrams UDP can carry (65507 bytes over IPv4, 65527 over IPv6) through a shared
+	// listener on the wildcard address: returned whole
+	m = service.NewListenerManager()
+	port = freePort()
+	hb, err := m.ListenPacket(fmt.Sprintf("[::]:%d", port))
+	if err != nil {
+		c.Inconclusive("largest datagrams: " + err.Error())
+		return true
+	}
+	hb2, _ := m.ListenPacket(fmt.Sprintf("[::]:%d", port))
+	for _, tc := range []struct {
+		network, dst string
+		size         int
+	}{{"udp4", fmt.Sprintf("127.0.0.1:%d", port), 65507}, {"udp6", fmt.Sprintf("[::1]:%d", port), 65507}, {"udp6", fmt.Sprintf("[::1]:%d", port), 65508}, {"udp6", fmt.Sprintf("[::1]:%d", port), 65527}} {
+		u, err := net.Dial(tc.network, tc.dst)
+		if err != nil {
+			c.Note("largest datagrams: dial %s: %v", tc.dst, err)
+			continue
+		}
+		id := nextID(c.Batch)
+		want := mk(id, 0, tc.size)
+		if _, err := u.Write(want); err != nil {
+			c.Note("largest datagrams: cannot send %d bytes over %s: %v", tc.size, tc.network, err)
+			u.Close()
+			continue
+		}
+		res := make(chan []byte, 1)
+		go func() {
+			b := make([]byte, 70000) // as large as the server's own read buffers and beyond
+			hb.SetReadDeadline(time.Now().Add(c12B))
+			n, _, err := hb.ReadFrom(b)
+			if err != nil {
+				res <- nil
+				return
+			}
+			res <- b[:n]
+		}()
+		got := <-res
+		u.Close()
+		c.Eval(fmt.Sprintf("largest|packet|%s|%d", tc.network, tc.size))
+		if !bytes.Equal(got, want) {
+			c.Violation("C12/burst/read-returned-something-that-was-not-sent", map[string]any{"what": fmt.Sprintf("a %d-byte datagram over %s came back with %d bytes (first difference at %d)", tc.size, tc.network, len(got), firstDiff(got, want))})
+			hb.Close()
+			hb2.Close()
+			return false
+		}
+		c.Count("largest_datagrams_returned_whole", 1)
+	}
+	hb.Close()
+	hb2.Close()
+	return true
 }
 
 // c12Released: after the last close the socket is released and nothing keeps running.
@@ -1458,6 +1511,7 @@ func init() {
 			c.Require("forced_mixed_kinds_on_one_address")
 			c.Require("fd_exhaustion_recoveries")
 			c.Require("burst_datagrams_each_returned_by_exactly_one_read")
+			c.Require("largest_datagrams_returned_whole")
 			c12Run(c)
 		},
 	})
